@@ -1,7 +1,7 @@
 HOOK_COMMITS = ["69b5feac"]
-FIX_COMMITS = ["1d9ec378", "304105e7"]
+FIX_COMMITS = ["1d9ec378", "304105e7", "df3a2e6c", "f7361866", "4009b9f0", "f51e7edb"]
 ENGINES = [
-    {"name": "tlc+harness", "path": "/verif/bin/check", "serves_properties": ["C01", "C02", "C07", "C08", "C09", "C20"],
+    {"name": "tlc+harness", "path": "/verif/bin/check", "serves_properties": ["C01", "C02", "C04", "C05", "C06", "C07", "C08", "C09", "C11", "C15", "C19", "C20"],
      "kind_free_text": "explicit TLA+ specification (spec/*.tla) checked with TLC; bound to the Rust code by a harness crate "
                        "(/verif/harness) that replays TLC-generated behaviours into mls-rs and records traces validated by TLC"},
 ]
@@ -33,6 +33,27 @@ CHECKS += [
     {"id": "C09", "category": "model_checking", "technique": _CORE + "; HPKE probe of every stored private key",
      "text": "Model invariant PrivMatchesPub; on the implementation (verif_private_keys hook) the set of direct-path positions holding a key must equal the model's after every step, every stored key must open an HPKE seal to the public key at that node of the exported tree, none may sit at a blank node, and path keys must be fresh (bijection).",
      "note": "trusts TLC, the symbolic crypto abstraction, and the harness projection; exhaustive only for the bounded instance (3 parties), larger instances by weighted simulation; by-reference adds/removes limited to one per epoch/leaf in generated behaviours"},
+]
+
+CHECKS += [
+    {"id": "C04", "category": "model_checking", "technique": _CORE + "; full-state comparison (verif_state hook) around every rejected call",
+     "text": "In the model every err branch is UNCHANGED; on the implementation the complete member state (all snapshot components, epoch secrets, repository queues) is compared before/after every call that returns an error in behaviours containing stale, replayed, out-of-window, unknown-epoch, missing-proposal, invalid by-value and racing operations, and the behaviour continues so the genuine messages must still be accepted.",
+     "note": "see C01; byte-level corruption classes are exercised by the C03 check when built"},
+    {"id": "C05", "category": "model_checking", "technique": _CORE + "; ratchet model with window, recording provider (key, nonce) monitor",
+     "text": "Per-sender ratchets with out-of-order window, bursts (1, 2, 3, 1024, 1025, 1026 generations), duplicates, late delivery and reloads are modelled; TLC checks NoGenerationReuse / AtMostOnce; every delivery outcome of the implementation must equal the model's (ok / replay / beyond window / epoch gone) and the recording provider must never see the same (key, nonce) in two content encryptions.",
+     "note": "see C01"},
+    {"id": "C06", "category": "model_checking", "technique": _CORE + "; Write/Load actions, both storage providers",
+     "text": "Write and Load (crash + reload) are actions that may occur at any point of a behaviour; the loaded group must equal the written one component by component, the repository queues and stored epoch ids must equal the model after every step, and every behaviour is executed with the in-memory and with the SQLite provider (ProvidersAgree is also a model invariant over the two trimming rules).",
+     "note": "see C01; SQLite's own atomicity is trusted"},
+    {"id": "C11", "category": "model_checking", "technique": _CORE + "; pending / detached commit machine",
+     "text": "Commit, CommitDetached, ClearPending, ApplyPending, ApplyDetached, own echo, foreign commit and delivery-service choice for racing members are exhaustively explored (MC_pending) and simulated; building a commit must change nothing but the pending commit, stale detached commits must be rejected, and all routes to an epoch must yield the same state.",
+     "note": "see C01"},
+    {"id": "C15", "category": "fault_enumeration", "technique": _CORE + "; enumeration of every failing storage call of every replayed operation",
+     "text": "For every storage-touching step of every behaviour the k-th storage call is made to fail for every k: the attempt must return an error and leave member state, pending commit and stored history unchanged; the retry is the step proper and is compared with the model (state, queues, stored epochs).",
+     "note": "see C01; faults are transient and single (pairs in thorough)"},
+    {"id": "C19", "category": "model_checking", "technique": _CORE + "; prior-epoch lookup and retention model",
+     "text": "Late application messages of every age are delivered under retention 1, 2 and 3 with writes and reloads interleaved, on both providers: the implementation must decrypt exactly when the model's FindPrior finds the epoch (pending inserts, loaded updates, storage) and the sender's leaf still carries the sender's identity; stored epoch ids must equal the model.",
+     "note": "see C01"},
 ]
 
 _PENDING = "check not built yet in this round (see DESIGN.md section 10 build order); will be claimed once its TLA+ model and binding exist"
